@@ -90,15 +90,23 @@ def gen_term(draw):
             items.append([draw(gen.encode(gen.fractions(positive=True), ("int", "dec", "frac"))),
                           draw(st.sampled_from([1, -1, 2, -2]))])
         else:
-            items.append([draw(st.sampled_from(_TERM_UNITS)), draw(st.sampled_from([1, -1, 2, -2, 3]))])
-    how = draw(st.sampled_from(["perm", "split", "expand", "same"]))
+            items.append([["u", draw(st.sampled_from(_TERM_UNITS))], draw(st.sampled_from([1, -1, 2, -2, 3]))])
+    how = draw(st.sampled_from(["perm", "split", "expand", "same", "prefix", "random"]))
     other = list(items)
+    if how == "prefix":
+        # NOT constructed equal: whatever == says, equal objects must hash equal
+        extra = [[["u", draw(st.sampled_from(_TERM_UNITS))], draw(st.sampled_from([1, -1, 2]))]
+                 for _ in range(draw(st.integers(1, 2)))]
+        other = items + extra if draw(st.booleans()) else items[:max(0, len(items) - 1)]
+    elif how == "random":
+        other = [[["u", draw(st.sampled_from(_TERM_UNITS))], draw(st.sampled_from([1, -1, 2, -2]))]
+                 for _ in range(draw(st.integers(0, 3)))]
     if how == "perm":
         other = list(draw(st.permutations(items)))
     elif how == "split":
         out = []
         for el, e in items:
-            if abs(e) >= 2 and isinstance(el, str):
+            if abs(e) >= 2 and el[0] == "u":
                 s = 1 if e > 0 else -1
                 out += [[el, s], [el, e - s]]
             else:
@@ -117,8 +125,14 @@ def gen_rate(draw):
     d = draw(st.integers(0, 6))
     rate = draw(st.integers(max(1, 10 ** (d - 3)), 10 ** 5)) * Fraction(1, 10 ** d)   # 1e-3 <= rate <= 1e5
     j = draw(st.integers(0, 4))
-    return {"k": "rate", "cs": cs, "m1": 10 ** k, "t1": fs(rate * 10 ** k), "m2": 10 ** j, "t2": fs(rate * 10 ** j),
-            "rep": draw(st.sampled_from(["dec", "frac", "str"]))}
+    c = {"k": "rate", "cs": cs, "m1": 10 ** k, "t1": fs(rate * 10 ** k), "m2": 10 ** j, "t2": fs(rate * 10 ** j),
+         "rep": draw(st.sampled_from(["dec", "frac", "str"]))}
+    if draw(st.integers(0, 3)) == 0 and k >= 1:
+        # NOT constructed equal: differs in the last stored digit only (beyond the 6th digit of the rate)
+        c["t2"] = fs(rate * 10 ** k + Fraction(draw(st.integers(1, 9)), 10 ** 6))
+        c["m2"] = 10 ** k
+        c["near"] = True
+    return c
 
 
 def parts(tier):
@@ -160,8 +174,8 @@ def _check_pair(ctx, tag, a, b, different):
 def _mkterm(items):
     out = []
     for el, e in items:
-        if isinstance(el, str):
-            out.append((Unit(el), e))
+        if el[0] == "u":
+            out.append((Unit(el[1]), e))
         else:
             out.append((mknum(el), e))
     return Term(out)
@@ -212,8 +226,8 @@ def run_case(case, ctx):
             if case["how"] == "expand":
                 idx = case["other"][1]
                 el, e = case["items"][idx]
-                if isinstance(el, str):
-                    nd = Unit(el).normalized_definition ** e
+                if el[0] == "u":
+                    nd = Unit(el[1]).normalized_definition ** e
                     rest = [it for i, it in enumerate(case["items"]) if i != idx]
                     t2 = _mkterm(rest) * nd if rest else nd
                 else:
@@ -225,7 +239,7 @@ def run_case(case, ctx):
                      f"{type(exc).__name__}: {exc}")
             return
         r = _check_pair(ctx, f"term/{case['how']}", t1, t2, case["how"] != "same")
-        if r is False:
+        if r is False and case["how"] not in ("prefix", "random"):
             ctx.label("term/unequal_spellings")
     elif k == "rate":
         c1, c2 = (Money.register_currency(c) for c in case["cs"])
@@ -240,6 +254,9 @@ def run_case(case, ctx):
             return fr
         r1 = ExchangeRate(c1, case["m1"], c2, mk(case["t1"]))
         r2 = ExchangeRate(c1, case["m2"], c2, mk(case["t2"]))
+        if case.get("near"):
+            _check_pair(ctx, "rate/near", r1, r2, True)
+            return
         _check_pair(ctx, "rate", r1, r2, case["m1"] != case["m2"])
         try:
             r3 = r1.inverted().inverted()
